@@ -267,6 +267,304 @@ def task_w_rotation(ctx):
     ctx.canary_eq("w-entry-swapped", w.a[0, 1 * 10 + 0], nddo.rotated_integral(L, T_XX, 2, 0, 0, 0))
     ctx.assume_note("shape: one pair of each kind (X-X, X-H, H-H); the routine is pointwise in the pair axis (indexing by the pair-kind masks only)")
 
+# ----------------------------------------------------------------------------
+# O4: two-centre one-electron (overlap / resonance) block, s-p-d basis: covariance of the assembly
 
-TASKS_QUICK = ["rotq", "rotq_jacobian", "w_rotation"]
+
+def _assembly_statements(target, start_text="di = th.zeros(", stop="return"):
+    """The top-level statements of `target` from the creation of `di` up to (not including) the final return, read from the
+    current source.  Everything before them (local-frame overlaps S111 ... S333, 4 700 lines of auxiliary integrals) is NOT
+    executed: its results enter as free symbols."""
+    import ast, inspect, textwrap
+    from pyvc import world as W
+
+    _, _, fn = W.resolve(target)
+    tree = ast.parse(textwrap.dedent(inspect.getsource(fn)))
+    body = tree.body[0].body
+    k0 = None
+    for k, stt in enumerate(body):
+        if ast.unparse(stt).startswith(start_text.replace(" ", " ")):
+            k0 = k
+    if k0 is None:
+        raise Unmodelled("contract anchor not found: `%s` in %s" % (start_text, target))
+    stmts = []
+    for stt in body[k0:]:
+        if isinstance(stt, ast.Return):
+            break
+        if isinstance(stt, ast.Expr) and isinstance(stt.value, ast.Constant):
+            continue  # bare string literals (commented-out code)
+        stmts.append(stt)
+    loads, stores = set(), set()
+    for stt in stmts:
+        for n in ast.walk(stt):
+            if isinstance(n, ast.Name):
+                (stores if isinstance(n.ctx, ast.Store) else loads).add(n.id)
+    code = compile(ast.Module(body=stmts, type_ignores=[]), "<assembly statements of %s>" % target, "exec")
+    return code, loads, stores, len(stmts)
+
+
+_S3 = None
+
+
+def _quad(name):
+    s3h = Sym(E.sqrt(E.const(3))) / 2
+    A = [[S(0) for _ in range(3)] for _ in range(3)]
+    if name == "x2-y2":
+        A[0][0], A[1][1] = s3h, -s3h
+    elif name == "xz":
+        A[0][2] = A[2][0] = s3h
+    elif name == "z2":
+        A[0][0] = A[1][1] = S(Fraction(-1, 2))
+        A[2][2] = S(1)
+    elif name == "yz":
+        A[1][2] = A[2][1] = s3h
+    elif name == "xy":
+        A[0][1] = A[1][0] = s3h
+    return A
+
+
+D_ORDER = ["x2-y2", "xz", "z2", "yz", "xy"]  # order of the d functions in the 9x9 blocks (MOPAC convention, as used by the package)
+
+
+def ao_rotation_spd(R):
+    """9x9 representation of the rotation R on (s, px, py, pz, d x2-y2, d xz, d z2, d yz, d xy): real d functions as the
+    traceless quadratic forms r^T A_k r, D[k,l] = (2/3) tr(A_k R A_l R^T)."""
+    T = [[S(0) for _ in range(9)] for _ in range(9)]
+    T[0][0] = S(1)
+    for i in range(3):
+        for j in range(3):
+            T[1 + i][1 + j] = R[i][j]
+    As = [_quad(n) for n in D_ORDER]
+
+    def mm(A, B):
+        return [[sum(A[i][k] * B[k][j] for k in range(3)) for j in range(3)] for i in range(3)]
+
+    Rt = [[R[j][i] for j in range(3)] for i in range(3)]
+    for l in range(5):
+        RAR = mm(mm(R, As[l]), Rt)
+        for k in range(5):
+            T[4 + k][4 + l] = Fraction(2, 3) * sum(As[k][i][j] * RAR[j][i] for i in range(3) for j in range(3))
+    return T
+
+
+def replay_overlap_d(model):
+    """real diatom_overlap_matrixD (Cl-Cl, PM6 exponents) at the model's direction against the rotated z-axis block."""
+    import math
+    import numpy as np
+    import torch
+    from seqm.seqm_functions.constants import Constants
+    from seqm.seqm_functions.diat_overlapD import diatom_overlap_matrixD
+
+    torch.set_default_dtype(torch.float64)
+    t, u = model_float(model, "t", 0.3), model_float(model, "u", 0.4)
+    ca, sa, cb, sb = (1 - t * t) / (1 + t * t), 2 * t / (1 + t * t), (1 - u * u) / (1 + u * u), 2 * u / (1 + u * u)
+    if sb < 0:
+        sb, sa, ca = -sb, -sa, -ca
+    const = Constants()
+    z = torch.tensor([[2.24, 2.15, 1.32]])
+
+    def di(v):
+        return diatom_overlap_matrixD(torch.tensor([17]), torch.tensor([17]), torch.tensor([v]), torch.tensor([3.76]), z, z, const.qn_int, const.qnD_int)[0].numpy()
+
+    Rz = np.array([[ca, -sa, 0], [sa, ca, 0], [0, 0, 1.0]])
+    Ry = np.array([[cb, 0, sb], [0, 1, 0], [-sb, 0, cb]])
+    R = Rz @ Ry
+    s3 = math.sqrt(3)
+    quads = {"x2-y2": np.diag([s3 / 2, -s3 / 2, 0]), "xz": np.array([[0, 0, s3 / 2], [0, 0, 0], [s3 / 2, 0, 0]]), "z2": np.diag([-0.5, -0.5, 1.0]),
+             "yz": np.array([[0, 0, 0], [0, 0, s3 / 2], [0, s3 / 2, 0]]), "xy": np.array([[0, s3 / 2, 0], [s3 / 2, 0, 0], [0, 0, 0]])}
+    T = np.zeros((9, 9))
+    T[0, 0] = 1
+    T[1:4, 1:4] = R
+    for k, a in enumerate(D_ORDER):
+        for l, b in enumerate(D_ORDER):
+            T[4 + k, 4 + l] = (2 / 3) * np.trace(quads[a] @ R @ quads[b] @ R.T)
+    v = R @ np.array([0, 0, 1.0])
+    got = di(v.tolist())
+    want = T @ di([0.0, 0.0, 1.0]) @ T.T
+    err = np.abs(got - want)
+    bad = [(int(i), int(j), float(got[i, j]), float(want[i, j])) for i, j in np.argwhere(err > 1e-9)]
+    return {"reproduced": bool(bad), "direction": v.tolist(), "pair": "Cl-Cl, r = 3.76 bohr", "max_abs_error": float(err.max()), "entries (row, col, computed, rotated z-axis block)": bad[:8]}
+
+
+def task_overlap_assembly_d(ctx):
+    """diatom_overlap_matrixD, assembly of the molecular-frame 9x9 block from the local-frame overlaps: for every bond direction
+    v = R e_z (R = Rz(alpha) Ry(beta)) the block equals T(R) * block(e_z) * T(R)^T, T the s-p-d representation of R.  With it the
+    resonance integrals, hence energies, are invariant under rotation of the molecule."""
+    tgt = "seqm.seqm_functions.diat_overlapD:diatom_overlap_matrixD"
+    ctx.under_contract(tgt, note="assembly statements only (from `di = th.zeros(...)` to the return), local-frame overlaps S### as free symbols")
+    code, loads, stores, nst = _assembly_statements(tgt)
+    frees = sorted(n for n in loads - stores if n.startswith("S") and n[1:].isdigit())
+    if len(frees) < 10 or nst < 60:
+        ctx.error("anchor", "assembly section looks different: %d statements, free local overlaps %r" % (nst, frees))
+        return
+    t, u = real("t"), real("u")
+    ca, sa = (1 - t * t) / (1 + t * t), 2 * t / (1 + t * t)
+    cb, sb = (1 - u * u) / (1 + u * u), 2 * u / (1 + u * u)
+    Ssym = {n: st.tensor([real(n)]) for n in frees}
+
+    def run(ca_, sa_, cb_, sb_):
+        env = {"th": st, "npairs": 1, "dtype": st.float64, "device": st._CPU}
+        env.update(Ssym)
+        env.update(ca=st.tensor([ca_]), sa=st.tensor([sa_]), cb=st.tensor([cb_]), sb=st.tensor([sb_]))
+        missing = loads - stores - set(env)
+        if missing:
+            raise Unmodelled("assembly statements read names this contract does not provide: %r" % sorted(missing))
+        exec(code, env)
+        return env["di"]
+
+    def thunk():
+        return run(ca, sa, cb, sb), run(S(1), S(0), S(1), S(0))
+
+    ex = ctx.explore(thunk, name="overlap-assembly-d")
+    if len(ex.paths) != 1 or ex.paths[0].raised is not None:
+        ctx.error("paths", "expected straight-line code: %r %s" % ([p.raised for p in ex.paths], ex.paths[0].notes.get("traceback", "")[-600:] if ex.paths else ""))
+        return
+    dv, dz = ex.paths[0].value
+    R = [[ca * cb, -sa, ca * sb], [sa * cb, ca, sa * sb], [-sb, S(0), cb]]  # Rz(alpha) Ry(beta): R e_z = (ca sb, sa sb, cb)
+    T = ao_rotation_spd(R)
+    L = [[dz.a[0, i, j] for j in range(9)] for i in range(9)]
+    names = ["s", "px", "py", "pz", "dx2-y2", "dxz", "dz2", "dyz", "dxy"]
+    for i in range(9):
+        TL = [sum(T[i][a] * L[a][b] for a in range(9)) for b in range(9)]
+        for j in range(9):
+            want = sum(TL[b] * T[j][b] for b in range(9))
+            ctx.prove_eq("block[%s,%s](v) = (T block(e_z) T^T)[%s,%s]" % (names[i], names[j], names[i], names[j]), dv.a[0, i, j], want, replay=replay_overlap_d,
+                         classify=lambda m_, r: "d-d-overlap-rotation" if r and r.get("reproduced") else "other")
+    # T is a representation: orthogonal (so the contract above is equivalent to covariance under every rotation of the molecule)
+    for i in range(4, 9):
+        for j in range(i, 9):
+            ctx.prove_eq("T-d-block-orthogonal[%d,%d]" % (i, j), sum(T[i][k] * T[j][k] for k in range(4, 9)), 1 if i == j else 0)
+    ctx.canary_eq("sign-of-a-delta-term", dv.a[0, 7, 8], dv.a[0, 7, 8] + 2 * real("S333") * ca * sb * cb * (2 * ca * ca - 1))
+    ctx.notes.append("assembly section: %d statements; free local-frame overlaps: %s" % (nst, ", ".join(frees)))
+    ctx.assume_note("rational parametrisation ca=(1-t^2)/(1+t^2), sa=2t/(1+t^2), cb=(1-u^2)/(1+u^2), sb=2u/(1+u^2): all directions except alpha=pi / beta=pi (closure by continuity); "
+                    "d functions ordered (x2-y2, xz, z2, yz, xy); local-frame overlaps and the direction cosines themselves (computed before the assembly) are inputs of this contract")
+    ctx.undecided_clause("values of the local-frame overlaps S### (auxiliary A/B integrals); torch.tensor(3.0) without dtype takes the default dtype (float32 unless the caller changed it)")
+
+
+def task_overlap_assembly_sp(ctx):
+    """diat_overlap.diatom_overlap_matrix (s-p basis, Euler-angle form): same covariance contract on the 4x4 block."""
+    tgt = "seqm.seqm_functions.diat_overlap:diatom_overlap_matrix"
+    ctx.under_contract(tgt, note="assembly statements only (from `di = torch.zeros(...)` to the return), local-frame overlaps as free symbols")
+    code, loads, stores, nst = _assembly_statements(tgt, start_text="di = torch.zeros(")
+    frees = sorted(n for n in loads - stores if n.startswith("S") and n[1:].isdigit())
+    if len(frees) != 5 or nst < 15:
+        ctx.error("anchor", "assembly section looks different: %d statements, free local overlaps %r" % (nst, frees))
+        return
+    t, u = real("t"), real("u")
+    ca, sa = (1 - t * t) / (1 + t * t), 2 * t / (1 + t * t)
+    cb, sb = (1 - u * u) / (1 + u * u), 2 * u / (1 + u * u)
+    Ssym = {n: st.tensor([real(n)]) for n in frees}
+
+    def run(ca_, sa_, cb_, sb_):
+        env = {"torch": st, "npairs": 1, "dtype": st.float64, "device": st._CPU, "jcall4": st.tensor([True])}
+        env.update(Ssym)
+        env.update(ca=st.tensor([ca_]), sa=st.tensor([sa_]), cb=st.tensor([cb_]), sb=st.tensor([sb_]))
+        missing = loads - stores - set(env)
+        if missing:
+            raise Unmodelled("assembly statements read names this contract does not provide: %r" % sorted(missing))
+        exec(code, env)
+        return env["di"]
+
+    ex = ctx.explore(lambda: (run(ca, sa, cb, sb), run(S(1), S(0), S(1), S(0))), name="overlap-assembly-sp")
+    if len(ex.paths) != 1 or ex.paths[0].raised is not None:
+        ctx.error("paths", "expected straight-line code: %r %s" % ([p.raised for p in ex.paths], ex.paths[0].notes.get("traceback", "")[-600:] if ex.paths else ""))
+        return
+    dv, dz = ex.paths[0].value
+    R = [[ca * cb, -sa, ca * sb], [sa * cb, ca, sa * sb], [-sb, S(0), cb]]
+    T = [[S(1) if (i == 0 and j == 0) else (R[i - 1][j - 1] if (i > 0 and j > 0) else S(0)) for j in range(4)] for i in range(4)]
+    names = ["s", "px", "py", "pz"]
+    for i in range(4):
+        for j in range(4):
+            want = sum(T[i][a] * dz.a[0, a, b] * T[j][b] for a in range(4) for b in range(4))
+            ctx.prove_eq("block[%s,%s](v) = (T block(e_z) T^T)[%s,%s]" % (names[i], names[j], names[i], names[j]), dv.a[0, i, j], want)
+    ctx.assume_note("rational parametrisation of the direction cosines as in overlap_assembly_d; X-X pair (jcall4 = True)")
+
+
+def replay_overlap_quat(model, dt=st.float64):
+    """real diatom_overlap_matrix_PM6_SP (C-C pair) at the model's direction against -S221 v v^T + S222 (1 - v v^T), with the
+    local overlaps read off the same function at v = e_x (generic branch, where the frame is exact)."""
+    import numpy as np
+    import torch
+    from seqm.seqm_functions.constants import Constants
+    from seqm.seqm_functions.diat_overlap_PM6_SP import diatom_overlap_matrix_PM6_SP
+
+    v = _real_v(model, dt)
+    if v is None:
+        return {"reproduced": False, "reason": "degenerate model"}
+    tdt = v.dtype
+    torch.set_default_dtype(torch.float64)
+    const = Constants()
+    z = torch.tensor([[1.808665, 1.685116]], dtype=tdt)
+
+    def di(vec):
+        return diatom_overlap_matrix_PM6_SP(torch.tensor([6]), torch.tensor([6]), vec, torch.tensor([2.6], dtype=tdt), z, z, const.qn_int)[0].to(torch.float64).numpy()
+
+    ref = di(torch.tensor([[1.0, 0, 0]], dtype=tdt))
+    S111, S211, S121, S221, S222 = ref[0, 0], ref[1, 0], -ref[0, 1], -ref[1, 1], ref[2, 2]
+    vv = v[0].to(torch.float64).numpy()
+    want = np.zeros((4, 4))
+    want[0, 0] = S111
+    want[1:, 0] = S211 * vv
+    want[0, 1:] = -S121 * vv
+    want[1:, 1:] = -S221 * np.outer(vv, vv) + S222 * (np.eye(3) - np.outer(vv, vv))
+    got = di(v)
+    err = float(np.abs(got - want).max())
+    tol = 1e-9 if dt == st.float64 else 1e-5
+    return {"reproduced": bool(err > tol), "input_v": vv.tolist(), "pair": "C-C, r = 2.6 bohr", "max_abs_error": err, "tolerance": tol}
+
+
+def task_overlap_assembly_quat(ctx):
+    """diatom_overlap_matrix_PM6_SP (the s-p overlap used by every method except PM6-with-d), quaternion frame: with the REAL
+    rotate_with_quaternion executed symbolically, the 4x4 block is  [S111, -S121 v^T; S211 v, -S221 v v^T + S222 (1 - v v^T)]:
+    a function of the bond direction alone (no trace of the choice of perpendicular axes), hence covariant."""
+    import sys
+    tgt = "seqm.seqm_functions.diat_overlap_PM6_SP:diatom_overlap_matrix_PM6_SP"
+    ctx.under_contract(tgt, note="assembly statements only (from `di = th.zeros(...)` to the return), local-frame overlaps as free symbols")
+    fn_rot = ctx.under_contract(TGT_ROT)
+    code, loads, stores, nst = _assembly_statements(tgt)
+    frees = sorted(n for n in loads - stores if n.startswith("S") and n[1:].isdigit())
+    dels = sorted(n for n in loads - stores if n[0] in "AB" and n[1:].isdigit())
+    if len(frees) != 5 or "rotate_with_quaternion" not in loads:
+        ctx.error("anchor", "assembly section looks different: %d statements, free local overlaps %r" % (nst, frees))
+        return
+    for dt in (st.float64, st.float32):
+        tag = "f64" if dt == st.float64 else "f32"
+        (vx, vy, vz), v, unit = _unit_v(dt)
+        eps = EPS[dt]
+        Ssym = {n: st.tensor([real(n)], dtype=dt) for n in frees}
+
+        def thunk():
+            assume(unit)
+            env = {"th": st, "npairs": 1, "dtype": dt, "device": st._CPU, "xij": v, "rotate_with_quaternion": fn_rot}
+            env.update(Ssym)
+            env.update({n: None for n in dels})
+            missing = loads - stores - set(env)
+            if missing:
+                raise Unmodelled("assembly statements read names this contract does not provide: %r" % sorted(missing))
+            exec(code, env)
+            inside = bool(abs(1 + vx) < Sym(E.const(eps, E.R)))
+            br = "antipodal" if inside else ("generic" if bool(vx >= 0) else "generic-flipped-chart")
+            return br, env["di"]
+
+        ex = ctx.explore(thunk, name="overlap-assembly-quat-" + tag)
+        vv = (vx, vy, vz)
+        S111, S121, S211, S221, S222 = [real(n) for n in ("S111", "S121", "S211", "S221", "S222")]
+        for p in ex.paths:
+            if p.raised is not None:
+                ctx.fail("%s.raises@p%d" % (tag, p.path_id), repr(p.raised) + p.notes.get("traceback", "")[-600:])
+                continue
+            br, di = p.value
+            pc = list(p.pc) + [unit]
+            rp = lambda m, dt=dt: replay_overlap_quat(m, dt)
+            ctx.prove("%s.%s.block[s,s]" % (tag, br), di.a[0, 0, 0] == S111, pc=pc)
+            for i in range(3):
+                ctx.prove("%s.%s.block[p%s,s] = S211 v" % (tag, br, "xyz"[i]), di.a[0, 1 + i, 0] == S211 * vv[i], pc=pc, replay=rp, classify=classify_branch)
+                ctx.prove("%s.%s.block[s,p%s] = -S121 v" % (tag, br, "xyz"[i]), di.a[0, 0, 1 + i] == -S121 * vv[i], pc=pc, replay=rp, classify=classify_branch)
+                for j in range(3):
+                    want = -S221 * vv[i] * vv[j] + S222 * ((1 if i == j else 0) - vv[i] * vv[j])
+                    ctx.prove("%s.%s.block[p%s,p%s] = -S221 v v^T + S222 (1 - v v^T)" % (tag, br, "xyz"[i], "xyz"[j]), di.a[0, 1 + i, 1 + j] == want, pc=pc, replay=rp, classify=classify_branch)
+    ctx.assume_note("unit bond vector; local-frame overlaps are inputs; the frame is the real rotate_with_quaternion (so its antipodal-cone defect shows here too)")
+
+
+TASKS_QUICK = ["rotq", "rotq_jacobian", "w_rotation", "overlap_assembly_d", "overlap_assembly_sp", "overlap_assembly_quat"]
 TASKS_THOROUGH = TASKS_QUICK
